@@ -278,6 +278,40 @@ func (s *Store) CanonReading(wire bool) string {
 	return sb.String()
 }
 
+// CanonExcept renders the store without one observation domain.
+func (s *Store) CanonExcept(domain uint32, wire bool) string {
+	c := &Store{Mode: s.Mode, T: map[Key][]Field{}}
+	for k, v := range s.T {
+		if k.Domain != domain {
+			c.T[k] = v
+		}
+	}
+	return c.CanonReading(wire)
+}
+
+// Held is one template as an implementation holds it.
+type Held struct {
+	ID  uint16
+	IEs []entities.InfoElement
+}
+
+// AdoptDomain replaces the model's templates of one observation domain by what an implementation holds
+// (used after a message whose effect inside its own domain the statements leave open).
+func (s *Store) AdoptDomain(domain uint32, impl []Held) {
+	for k := range s.T {
+		if k.Domain == domain {
+			delete(s.T, k)
+		}
+	}
+	for _, t := range impl {
+		fs := make([]Field, 0, len(t.IEs))
+		for _, ie := range t.IEs {
+			fs = append(fs, Field{ID: ie.ElementId, PEN: ie.EnterpriseId, Len: ie.Len, WireLen: ie.Len, Known: ie.Name != "", Type: ie.DataType, Name: ie.Name})
+		}
+		s.T[Key{domain, t.ID}] = fs
+	}
+}
+
 // Domains lists observation domains with at least one template.
 func (s *Store) Domains() []uint32 {
 	m := map[uint32]bool{}
